@@ -76,7 +76,7 @@ def node(root, shift=0):
     return walk(root)
 
 
-def value(root, ordered=True):
+def value(root, ordered=True, tuple_as_list=False):
     """Type-strict canonical form of an object graph; containers numbered by first visit
     (sharing and cycles are part of the value); sets sorted by the canonical form.
     ordered=False: the pairs of a dict are visited in the order of their keys' canonical
@@ -107,11 +107,11 @@ def value(root, ordered=True):
             seen[id(v)] = len(seen)
             n = seen[id(v)]
             if isinstance(v, (list, tuple)):
-                return {t.__name__: [walk(x) for x in v], 'id': n}
+                return {('list' if tuple_as_list else t.__name__): [walk(x) for x in v], 'id': n}
             if isinstance(v, dict):
                 items = list(v.items())
                 if not ordered:
-                    items.sort(key=lambda kv: jdump(value(kv[0])))
+                    items.sort(key=lambda kv: jdump(value(kv[0], tuple_as_list=tuple_as_list)))
                 return {t.__name__: [[walk(k), walk(x)] for k, x in items], 'id': n}
             if isinstance(v, (set, frozenset)):
                 return {t.__name__: sorted((walk(x) for x in v), key=jdump), 'id': n}
